@@ -10,6 +10,8 @@ open OxiVerif.Codec
 
 def Bytes (l : List Nat) : Prop := ∀ x ∈ l, x < 256
 
+instance (l : List Nat) : Decidable (Bytes l) := by unfold Bytes; infer_instance
+
 theorem Bytes.cons {x : Nat} {l : List Nat} : Bytes (x :: l) ↔ x < 256 ∧ Bytes l := by
   simp [Bytes]
 
@@ -282,5 +284,65 @@ theorem flatMap_bytes_length_ge (ps : List Packet) : ps.length ≤ (ps.flatMap P
     simp only [List.flatMap_cons, List.length_append, List.length_cons]
     have : 1 ≤ p.bytes.length := by cases p <;> simp [Packet.bytes]
     omega
+
+
+theorem takeWhile_eq_replicate (x : Nat) : ∀ (xs : List Nat) (k : Nat), k ≤ (xs.takeWhile (· == x)).length →
+    xs.take k = List.replicate k x := by
+  intro xs
+  induction xs with
+  | nil => intro k hk; simp at hk; subst hk; rfl
+  | cons y ys ih =>
+    intro k hk
+    cases k with
+    | zero => rfl
+    | succ k =>
+      by_cases hy : (y == x) = true
+      · simp only [List.takeWhile_cons, hy, if_true] at hk
+        simp only [List.length_cons] at hk
+        have := ih k (by omega)
+        have hyx : y = x := by simpa using hy
+        simp [List.take_succ_cons, this, List.replicate_succ, hyx]
+      · simp only [List.takeWhile_cons, hy] at hk
+        simp at hk
+
+theorem rlPacketsGo_spec : ∀ (fuel : Nat) (data : List Nat), data.length < fuel →
+    rlExpand (rlPacketsGo fuel data) = data ∧ ∀ p ∈ rlPacketsGo fuel data, p.valid = true := by
+  intro fuel
+  induction fuel with
+  | zero => intro data h; omega
+  | succ fuel ih =>
+    intro data h
+    cases data with
+    | nil => simp [rlPacketsGo, rlExpand]
+    | cons x xs =>
+      simp only [List.length_cons] at h
+      have hk : min 127 (xs.takeWhile (· == x)).length ≤ (xs.takeWhile (· == x)).length := Nat.min_le_right _ _
+      generalize hkk : min 127 (xs.takeWhile (· == x)).length = k at hk
+      have hk127 : k ≤ 127 := by rw [← hkk]; exact Nat.min_le_left _ _
+      have htake := takeWhile_eq_replicate x xs k hk
+      have hdl : (xs.drop k).length < fuel := by simp; omega
+      obtain ⟨ih1, ih2⟩ := ih (xs.drop k) hdl
+      simp only [rlPacketsGo, hkk]
+      constructor
+      · simp only [rlExpand, List.flatMap_cons] at ih1 ⊢
+        rw [ih1]
+        by_cases h0 : k = 0
+        · subst h0; simp [Packet.expand]
+        · rw [if_neg h0]
+          simp only [Packet.expand, List.replicate_succ, List.cons_append]
+          rw [← htake, List.take_append_drop]
+      · intro p hp
+        simp only [List.mem_cons] at hp
+        rcases hp with rfl | hp
+        · by_cases h0 : k = 0
+          · subst h0; simp [Packet.valid]
+          · rw [if_neg h0]; simp [Packet.valid]; omega
+        · exact ih2 p hp
+
+theorem rlPackets_expand (data : List Nat) : rlExpand (rlPackets data) = data :=
+  (rlPacketsGo_spec _ data (Nat.lt_succ_self _)).1
+
+theorem rlPackets_valid (data : List Nat) : ∀ p ∈ rlPackets data, p.valid = true :=
+  (rlPacketsGo_spec _ data (Nat.lt_succ_self _)).2
 
 end OxiVerif.Flt
